@@ -22,7 +22,7 @@ ROOT_PARENT = "/symfs"
 
 
 class FSModel:
-    def __init__(self, cands: dict, lines: dict | None = None, order_symbolic: bool = False, fixed: dict | None = None):
+    def __init__(self, cands: dict, lines: dict | None = None, order_symbolic: bool = False, fixed: dict | None = None, lines_fixed: bool = False):
         """cands: relative path -> 'dir' | 'file' (parents must be listed too; the first component is the root
         directory, which always exists).  lines: relative file path -> list of candidate source lines.
         fixed: relative path -> bool, existence decided by the instance (not symbolic)."""
@@ -30,6 +30,7 @@ class FSModel:
         self.lines = dict(lines or {})
         self.order_symbolic = order_symbolic
         self.fixed = dict(fixed or {})
+        self.lines_fixed = lines_fixed
         self.kids: dict = {}
         for p in self.cands:
             par = os.path.dirname(p)
@@ -69,6 +70,8 @@ class FSModel:
         return out
 
     def present_lines(self, rel: str) -> list[str]:
+        if self.lines_fixed:
+            return list(self.lines.get(rel, []))
         return [ln for i, ln in enumerate(self.lines.get(rel, [])) if ENGINE.branch(("l", rel, i)) == 1]
 
     def content(self, rel: str) -> str:
@@ -76,7 +79,8 @@ class FSModel:
 
     def all_keys(self) -> list:
         ks = [(("x", p), 2) for p in self.cands if "/" in p and p not in self.fixed]
-        ks += [(("l", p, i), 2) for p, ls in self.lines.items() for i in range(len(ls))]
+        if not self.lines_fixed:
+            ks += [(("l", p, i), 2) for p, ls in self.lines.items() for i in range(len(ls))]
         return ks
 
     # ---- concrete view under an assignment (oracles, materialisation) ----------------------------
@@ -88,7 +92,7 @@ class FSModel:
                 ex.add(p)
             elif os.path.dirname(p) in ex and (self.fixed[p] if p in self.fixed else assign.get(("x", p), 0) == 1):
                 ex.add(p)
-        txt = {p: [ln for i, ln in enumerate(ls) if assign.get(("l", p, i), 0) == 1] for p, ls in self.lines.items() if p in ex}
+        txt = {p: [ln for i, ln in enumerate(ls) if self.lines_fixed or assign.get(("l", p, i), 0) == 1] for p, ls in self.lines.items() if p in ex}
         return ex, txt
 
     def materialise(self, assign: dict, base: str) -> str:
